@@ -940,6 +940,20 @@ func (r *Run) opCopy(op *Op) {
 		}
 		r.fail("read.absent", "copy of a missing source key does not answer NoSuchKey "+r.bctx(), "404 NoSuchKey", resp.String())
 	}
+	if sure, maybe := r.fsKeyConflict(op.B, op.Key); (sure || maybe) && !resp.OK() {
+		// the destination lies below a stored key (or above one): a file-system
+		// backend refuses it and nothing changes
+		if resp.Status >= 400 && resp.Status < 500 {
+			r.probe("upload refused: key in a path relation with a stored key (fs)")
+			return
+		}
+		if sure {
+			r.fail("copy.semantics", "a copy whose destination conflicts with a stored key is answered with a server error "+r.bctx(), "4xx", resp.String())
+		}
+		return
+	} else if sure && resp.OK() {
+		r.fail("frame.others", "a file-system backend accepts a copy onto a key that is a path prefix of a stored key or lies below one "+r.bctx(), "4xx", resp.String())
+	}
 	var x xCopyResult
 	if resp.Status != 200 || xml.Unmarshal(resp.Body, &x) != nil {
 		r.fail("copy.semantics", "copy of an existing object fails "+r.bctx(), "200 CopyObjectResult", resp.String())
